@@ -7,7 +7,6 @@ import re
 import sys
 import time
 import traceback
-from concurrent.futures import ProcessPoolExecutor, as_completed
 from fractions import Fraction
 
 ROOT = os.path.dirname(os.path.dirname(os.path.abspath(__file__)))
@@ -59,27 +58,113 @@ def unjson_num(x):
 
 
 # --------------------------------------------------------------------------------------
-def run_tasks(tasks, workers=None):
+TASK_TIMEOUT_S = int(os.environ.get("VERIF_TASK_TIMEOUT", "300"))
+
+
+def _child(conn, f, a):
+    sys.unraisablehook = lambda *x: None
+    try:
+        conn.send(("ok", f(*a)))
+    except BaseException:
+        try:
+            conn.send(("err", traceback.format_exc()))
+        except Exception:
+            pass
+    finally:
+        conn.close()
+
+
+def run_tasks(tasks, workers=None, task_timeout=None):
     """tasks: list of (callable, args).  Returns (list of obligation dicts, list of task errors).
-    Each callable returns a list of obligation dicts (and may append {'_stats': …})."""
+    Every task runs in its own forked process and is killed after task_timeout seconds: a task
+    that does not finish is a failed 'terminates' obligation of the function it checks (the
+    unchanged tree needs a few seconds per task)."""
+    import multiprocessing as mp
+    from multiprocessing.connection import wait
     workers = workers or int(os.environ.get("VERIF_WORKERS", "16"))
+    task_timeout = task_timeout or TASK_TIMEOUT_S
     obs, errs = [], []
-    if workers <= 1 or len(tasks) <= 1:
+    if workers <= 1:
         for f, a in tasks:
             try:
                 obs.extend(f(*a))
             except Exception:
                 errs.append("%s%r: %s" % (f.__name__, a, traceback.format_exc()))
         return obs, errs
-    with ProcessPoolExecutor(max_workers=workers) as ex:
-        futs = {ex.submit(f, *a): (f, a) for f, a in tasks}
-        for fu in as_completed(futs):
-            f, a = futs[fu]
+    ctx = mp.get_context("fork")
+    pending = list(tasks)[::-1]
+    running = {}
+    ntimeouts = 0
+    while pending or running:
+        while pending and len(running) < workers:
+            f, a = pending.pop()
+            pc, cc = ctx.Pipe(duplex=False)
+            pr = ctx.Process(target=_child, args=(cc, f, a), daemon=True)
+            pr.start()
+            cc.close()
+            running[pc] = (pr, f, a, time.time())
+        ready = wait(list(running), timeout=0.5)
+        for c in ready:
+            pr, f, a, st = running.pop(c)
             try:
-                obs.extend(fu.result())
-            except Exception:
-                errs.append("%s%r: %s" % (f.__name__, a, traceback.format_exc()))
+                kind, payload = c.recv()
+                if kind == "ok":
+                    obs.extend(payload)
+                else:
+                    errs.append("%s%r: %s" % (f.__name__, a, payload))
+            except EOFError:
+                errs.append("%s%r: worker died without a result (exit code %s)" % (f.__name__, a, pr.exitcode))
+            c.close()
+            pr.join(5)
+        now = time.time()
+        for c in list(running):
+            pr, f, a, st = running[c]
+            if now - st > (task_timeout if ntimeouts < 6 else max(30, task_timeout / 8)):
+                ntimeouts += 1
+                pr.kill()
+                pr.join(5)
+                c.close()
+                del running[c]
+                fn = getattr(f, "contract_fn", f.__name__)
+                obs.append(ob("%s:terminates[task %s%r]" % (fn, f.__name__, a), fn, FAILED, "B", "watchdog",
+                              now - st, "the task did not finish within %d s and was killed "
+                              "(non-termination or blow-up of the code under contract)" % task_timeout,
+                              None, {"timeout": True}))
     return obs, errs
+
+
+def _start_call(fn, args):
+    import multiprocessing as mp
+    ctx = mp.get_context("fork")
+    pc, cc = ctx.Pipe(duplex=False)
+    pr = ctx.Process(target=_child, args=(cc, fn, args), daemon=True)
+    pr.start()
+    cc.close()
+    return pr, pc
+
+
+def _finish_call(job, timeout):
+    """-> ('ok', value) | ('err', text) | ('timeout', None)"""
+    pr, pc = job
+    try:
+        if pc.poll(timeout):
+            try:
+                return pc.recv()
+            except EOFError:
+                return ("err", "child died")
+        return ("timeout", None)
+    finally:
+        if pr.is_alive():
+            pr.kill()
+        pr.join(5)
+        pc.close()
+
+
+def call_with_timeout(fn, args, timeout):
+    return _finish_call(_start_call(fn, args), timeout)
+
+
+MAX_REPORTED = 12
 
 
 # --------------------------------------------------------------------------------------
@@ -117,6 +202,14 @@ def match_finding(prop, o, findings):
 
 
 # --------------------------------------------------------------------------------------
+REPLAY_TIMEOUT_S = int(os.environ.get("VERIF_REPLAY_TIMEOUT", "30"))
+
+
+def _replay_json(replay_fn, o):
+    bad, expected, observed = replay_fn(o)
+    return bool(bad), jsonable(expected), jsonable(observed)
+
+
 def finish(prop, tier, seed, obs, errs, t0, info, replay_fn=None):
     """Writes evidence, replay files, prints VIOLATION / KNOWN-FINDING lines, returns exit code.
 
@@ -148,29 +241,51 @@ def finish(prop, tier, seed, obs, errs, t0, info, replay_fn=None):
         lines.append("KNOWN-FINDING: property=%s %s: %s [%d obligation(s), e.g. %s]" % (
             prop, kid, kf["what"], len(lst), lst[0]["id"]))
 
-    nviol = 0
-    for n, o in enumerate(violations):
+    # one representative per (function, clause) first, at most MAX_REPORTED replayed and listed
+    reps, seen = [], set()
+    for o in violations:
+        k = o["id"].split("[")[0]
+        if k not in seen:
+            seen.add(k)
+            reps.append(o)
+    for o in violations:
+        if len(reps) >= MAX_REPORTED:
+            break
+        if o not in reps:
+            reps.append(o)
+    reps = reps[:MAX_REPORTED]
+    jobs = []
+    for o in reps:
+        if o["witness"] is not None and replay_fn is not None:
+            jobs.append((o, _start_call(_replay_json, (replay_fn, o))))
+        else:
+            jobs.append((o, None))
+    deadline = time.time() + REPLAY_TIMEOUT_S
+    for n, (o, job) in enumerate(jobs):
         safe = re.sub(r"[^A-Za-z0-9_.=-]+", "_", o["id"])[:120]
         path = os.path.join(REPL, "%s-%s-%d.json" % (prop, safe, n))
         rep = dict(property=prop, obligation=o["id"], function=o["fn"], engine=o["engine"],
                    backend=o["backend"], status=o["status"], verifier_output=o["detail"],
                    witness=jsonable(o["witness"]), tags=jsonable(o["tags"]))
         reproduced = None
-        if o["witness"] is not None and replay_fn is not None:
-            try:
-                reproduced, expected, observed = replay_fn(o)
-                rep.update(replayed=True, reproduced=bool(reproduced),
-                           expected=jsonable(expected), observed=jsonable(observed))
-            except Exception:
-                rep.update(replayed=False, replay_error=traceback.format_exc()[-1500:])
+        if job is not None:
+            kind, payload = _finish_call(job, max(0.5, deadline - time.time()))
+            if kind == "ok":
+                reproduced, expected, observed = payload
+                rep.update(replayed=True, reproduced=bool(reproduced), expected=expected, observed=observed)
+            elif kind == "timeout":
+                reproduced = True
+                rep.update(replayed=True, reproduced=True, expected="a result",
+                           observed="no result within %d s on the real code with these inputs" % REPLAY_TIMEOUT_S)
+            else:
+                rep.update(replayed=False, replay_error=str(payload)[-1500:])
         with open(path, "w") as f:
             json.dump(rep, f, indent=1)
         tail = "" if reproduced else " no-failing-input-found"
         lines.append("VIOLATION property=%s replay=%s obligation=%s%s" % (prop, path, o["id"], tail))
-        nviol += 1
-        if nviol >= 40:
-            lines.append("(%d further failed obligations not listed)" % (len(violations) - nviol))
-            break
+    if len(violations) > len(reps):
+        lines.append("(%d further failed obligations of the same functions are listed in the evidence file)" % (
+            len(violations) - len(reps)))
 
     nob = len(obs)
     nproved = sum(1 for o in obs if o["status"] == PROVED)
@@ -213,6 +328,7 @@ def finish(prop, tier, seed, obs, errs, t0, info, replay_fn=None):
         bounded_obligations=nob - len(unb),
         bounded_discharged=sum(1 for o in obs if o["bounded"] and o["status"] == PROVED),
         failed=len(failed), known_finding_obligations=len(known), violations=len(violations),
+        failed_obligations=[dict(id=o["id"], detail=o["detail"][:200]) for o in violations[:200]],
         by_engine=by_engine, functions_under_contract=fns,
         checker_cmd=info.get("checker_cmd", "./check %s --tier %s" % (prop, tier)),
         trusted_base=info.get("trusted_base", []),
